@@ -51,7 +51,26 @@ pub fn panic_sig(p: &str) -> String {
     };
     let file = loc.rsplit('/').next().unwrap_or(loc);
     let file = file.split(':').next().unwrap_or(file);
-    // drop digits (indices, lengths) from the message
+    // drop quoted operand text (`...` and '...') and digits (indices, lengths) from the message
+    let mut unq = String::new();
+    let mut quote: Option<char> = None;
+    for c in msg.chars() {
+        match quote {
+            Some(q) => {
+                if c == q {
+                    quote = None;
+                    unq.push(q);
+                }
+            }
+            None => {
+                unq.push(c);
+                if c == '`' || c == '\'' {
+                    quote = Some(c);
+                }
+            }
+        }
+    }
+    let msg = unq.as_str();
     let mut m = String::new();
     let mut last_hash = false;
     for c in msg.chars() {
